@@ -252,8 +252,13 @@ def run_mc(pid, tier, workdir, export_depth=None):
         text = res["text"]
         for name, h in tla_json_lines(text, "CEX"):
             summary["cex"].append({"invariant": name, "script": hist_to_script(h, "MC-CEX:%s:%s" % (pid, name))})
+        mine = []
         for _, h in tla_json_lines(text, "SCRIPT"):
-            summary["scripts"].append(hist_to_script(h, "S1:%s:%d" % (pid, len(summary["scripts"]))))
+            mine.append(hist_to_script(h, "S1:%s:%d" % (pid, len(summary["scripts"]) + len(mine))))
+        summary["scripts"] += mine
+        # an instance exported in full (small: every transition) is replayed in full, not sampled
+        summary.setdefault("full", []).extend(mine if every == 1 and len(mine) <= 10000 else [])
+        summary.setdefault("sampled", []).extend([] if every == 1 and len(mine) <= 10000 else mine)
         for m in re.finditer(r'<<"WITNESS", <<(.*)>>>>', text):
             summary["witnesses"].add(m.group(1).replace('"', ""))
         ok = res["ok"] or (res.get("timed_out", False) and not res["violated"])
@@ -1153,9 +1158,18 @@ def check_engine_property(pid, tier, seed):
     # 1. spec: the bounded instance of Engine.tla with this property's monitor composed
     depth = mcconf.EXPORT_DEPTH.get(pid, {}).get(tier, 0)
     mc = run_mc(pid, tier, workdir, export_depth=depth)
-    s1 = sample_deep(mc["scripts"], vol["s1"])
+    s1 = mc.get("full", []) + sample_deep(mc.get("sampled", mc["scripts"]), vol["s1"])
     cex = [c["script"] for c in mc["cex"][:20]]
     defects, defect_scripts = run_engine_defects(pid, tier, workdir)
+    if pid == "C08":
+        # the service-time contract is about what next_service_time answers: ask after every step of every exported script
+        def probed(sc):
+            steps = []
+            for st in sc["steps"]:
+                steps.append(st)
+                if st.get("a") not in ("Settle", "Reset", "Quiesce"): steps.append({"a": "NextSvc"})
+            return {"cfg": sc["cfg"], "steps": steps}
+        cex, defect_scripts, s1 = [probed(x) for x in cex], [probed(x) for x in defect_scripts], [probed(x) for x in s1]
     s1_path = os.path.join(workdir, "s1.scripts")
     with open(s1_path, "w") as f:
         for sc in cex + defect_scripts + s1:
